@@ -2182,6 +2182,7 @@ def run(ctx):
     # ---- instance independence (histories over SEVERAL problem instances; placed last because it modifies what problems hand out)
     from harness.props import c17_ext
     c17_ext.instance_histories(ctx, cuqi, T)
+    c17_ext.caller_mutation_histories(ctx, cuqi)
 
     # malformed protocol lines: the driver must not default
     bad = ["dc1 zero x 1,2", "leg 8", "noise gaussian 1/0 1 1", "poisson 3 0 1,1,1,1 1,1,1 0", "comp Foo", "heat 3 1 1/5 1,2 0", "wang 1", ""]
